@@ -78,6 +78,19 @@ def make_manager_class():
                 rec["seq1"] = mw.next_seq()
                 rec["after"] = self._sample()
 
+        async def async_set_spa_info(self, *a, **k):
+            mw = self.mw
+            rec = {"api": "async_set_spa_info", "args": [None if x is None else str(x) for x in a], "t0": mw.w.now, "seq0": mw.next_seq(), "before": self._sample(), "t1": None, "exc": None}
+            mw.api.append(rec)
+            try:
+                return await super().async_set_spa_info(*a, **k)
+            except BaseException as e:
+                rec["exc"] = type(e).__name__
+                raise
+            finally:
+                rec["t1"] = mw.w.now
+                rec["seq1"] = mw.next_seq()
+
         async def async_locate_spas(self, *a, **k):
             mw = self.mw
             rec = {"api": "async_locate_spas", "t0": mw.w.now, "seq0": mw.next_seq(), "t1": None, "exc": None}
